@@ -372,11 +372,15 @@ def r_snapshot_forget(ctx: Ctx, rule="R13.1", funcs=("flush",)):
     rep.rule(rule, "SNAPSHOT-FORGET: a registry removal that follows a suspension step of the same function removes only ids of a snapshot "
                    "taken before that suspension (entries added while suspended must survive)")
     for name in funcs:
-        for f in ctx.pool_funcs(name):
+        impls = forgetting_impls(ctx, name)
+        total_removals = 0
+        for f in impls:
             g = ctx.an.cfg(f)
             removals = [n for n in ctx.nodes(f, lambda n: any(e.kind in ("clear", "remove", "assign") and field_of(e.path) in ("_tasks_ended", "_tasks_cancelled", "_tasks_running")
                                                                 and e.path.count(".") == 1 for e in ctx.eff.of_node(n)))]
-            rep.floor(rule, f"registry removals in {f.short}", len(ctx.distinct_sites(removals)), 1)
+            total_removals += len(ctx.distinct_sites(removals))
+            if f is impls[-1]:
+                rep.floor(rule, f"registry removals in {name} (and the coroutines it delegates to)", total_removals, 1)
             susp = ctx.nodes(f, lambda n: ctx.effective(n))
             for r in ctx.distinct_sites(removals):
                 eff = [e for e in ctx.eff.of_node(r) if e.kind in ("clear", "remove", "assign") and field_of(e.path) in ("_tasks_ended", "_tasks_cancelled", "_tasks_running")][0]
@@ -404,6 +408,25 @@ def r_snapshot_forget(ctx: Ctx, rule="R13.1", funcs=("flush",)):
                 rep.ob(rule, f"removal from {eff.path} after a suspension is restricted to ids snapshotted before it and gathered meanwhile", ok, node=r,
                        detail="" if ok else f"`{r.text(60)}` follows the suspension at {before[-1].where()} ({before[-1].text(50)}){tagtxt}; entries inserted into "
                                             f"{eff.path} by {sorted({ctx.fname(e.node.func) for e in others})} while {f.name} is suspended are dropped without having been gathered")
+
+
+def forgetting_impls(ctx: Ctx, name: str) -> List[FuncInfo]:
+    """`name` (e.g. flush) and the pool coroutines it awaits, transitively, that forget tasks or gather on its behalf"""
+    out: List[FuncInfo] = []
+    seen: Set[str] = set()
+    work = list(ctx.pool_funcs(name))
+    while work:
+        f = work.pop(0)
+        if f.qual in seen:
+            continue
+        seen.add(f.qual)
+        out.append(f)
+        for n in ctx.nodes(f, lambda n: n.op == "await" and n.awaited is not None and n.awaited.kind == "pkg"):
+            for t in n.awaited.targets:
+                if ctx.in_pool(t) and t.name not in ("flush", "gather_and_close", "_task_wrapper", "_start_task") and \
+                        any(e.kind in ("clear", "remove", "assign") and field_of(e.path) in ("_tasks_ended", "_tasks_cancelled") for e in ctx.func_trans_effects(t)):
+                    work.append(t)
+    return out
 
 
 def _removal_is_snapshot_keyed(ctx: Ctx, f: FuncInfo, r: Node, eff, susp_before: List[Node]) -> Optional[bool]:
